@@ -343,3 +343,80 @@ def rule_index_bound_survives_callback(ctx, rep, rid: str, floor: int = 2) -> No
                     cb = inloop[0]
                     rep.bad(rid, key, f"{f.qual}: {store}[{idx}] is indexed inside a loop that also runs script code ({short(cb, 50)}); the loop bound was computed before the loop, so a callback that shrinks the array makes this a host IndexError", f"{f.module.rel}:{sub.lineno}")
     # floor control: the rule must have looked at the callback-driven array methods
+
+
+# ---- stale local alias of a re-bindable field across a re-entrant call -----------------------------
+
+def _rebound_container_fields(ctx) -> Dict[str, str]:
+    """Private fields that some function other than a constructor re-binds to a NEW container
+    (`arr._elements = arr._elements[:n]`, `= []`, `= list(...)`, `= a + b`): attr -> where."""
+    out: Dict[str, str] = {}
+    for f in ctx.tree.funcs:
+        if f.name == "__init__":
+            continue
+        fresh = {t.id for n in f.own_nodes() if isinstance(n, ast.Assign) and isinstance(n.value, ast.Call) and isinstance(n.value.func, ast.Name) and n.value.func.id[:1].isupper() for t in n.targets if isinstance(t, ast.Name)}
+        for n in f.own_nodes():
+            if isinstance(n, ast.Assign):
+                for t in n.targets:
+                    if isinstance(t, ast.Attribute) and t.attr.startswith("_") and isinstance(n.value, (ast.List, ast.ListComp, ast.BinOp, ast.Subscript, ast.Call, ast.Dict, ast.DictComp)):
+                        if isinstance(n.value, ast.Subscript) and not isinstance(n.value.slice, ast.Slice):
+                            continue  # an element, not a new container
+                        if isinstance(t.value, ast.Name) and t.value.id in fresh:
+                            continue  # filling in an object this function has just created
+                        out.setdefault(t.attr, f"{f.qual}:{n.lineno}")
+    return out
+
+
+def rule_no_stale_local_alias(ctx, rep, rid: str, floor: int = 3) -> None:
+    """`elements = arr._elements` followed by a call that can run script code, followed by another use of
+    `elements`: the script may have re-bound arr._elements (length assignment, splice), so the local is a
+    detached list.  Obligation per function that runs script code and reads such a field: no path
+    alias-assignment -> re-entrant call -> use of the alias without the alias being re-read in between."""
+    rep.rule(rid, "a function that can re-enter script code does not keep using a local alias of an object's re-bindable storage field (arr._elements, ...) after the re-entrant call: the field is re-read (or the alias re-assigned) on every path from the call to the next use", floor=floor)
+    rebound = _rebound_container_fields(ctx)
+    sr = ctx.facts.script_reachable()
+    for f in ctx.tree.funcs:
+        if id(f) not in sr or f.module.name.startswith("regex"):
+            continue
+        reads = [n for n in f.own_nodes() if isinstance(n, ast.Attribute) and isinstance(n.ctx, ast.Load) and n.attr in rebound and n.attr in _SHARED_STORAGE]
+        if not reads:
+            continue
+        sites = _reentrant_sites(ctx, f)
+        if not sites:
+            continue
+        key = f"{f.qual}:alias-across-callback"
+        alias_assigns = [n for n in f.own_nodes() if isinstance(n, ast.Assign) and len(n.targets) == 1 and isinstance(n.targets[0], ast.Name) and isinstance(n.value, ast.Attribute) and n.value.attr in rebound and n.value.attr in _SHARED_STORAGE]
+        bad = None
+        if alias_assigns:
+            cfg = ctx.facts.cfg(f)
+
+            def contains(node, target) -> bool:
+                return node.ast is not None and any(x is target for x in ast.walk(node.ast))
+
+            for a in alias_assigns:
+                name = a.targets[0].id
+                a_nodes = [n for n in cfg.nodes if n.stmt is a or n.ast is a]
+                writes = {n.id for n in cfg.nodes if n.ast is not None and any(isinstance(x, ast.Name) and x.id == name and isinstance(x.ctx, ast.Store) for x in ast.walk(n.ast))}
+                for c in sites:
+                    c_nodes = [n for n in cfg.nodes if contains(n, c)]
+                    for an in a_nodes:
+                        for cn in c_nodes:
+                            # alias live at the call?
+                            live = cfg.path_avoiding(an.id, lambda n: n.id == cn.id, writes - {an.id}, None, start_succ=True)
+                            if live is None:
+                                continue
+                            use = cfg.path_avoiding(cn.id, lambda n: n.ast is not None and any(isinstance(x, ast.Name) and x.id == name and isinstance(x.ctx, ast.Load) for x in ast.walk(n.ast)), writes, None, start_succ=True)
+                            if use is not None:
+                                bad = (name, a, c, use[-1])
+                                break
+                        if bad:
+                            break
+                    if bad:
+                        break
+                if bad:
+                    break
+        if bad:
+            name, a, c, use = bad
+            rep.bad(rid, key, f"{f.qual}: `{name}` aliases {norm(a.value)} (line {a.lineno}) and is used again at line {use.line} after {short(c, 50)} (line {c.lineno}) may have run script code; {a.value.attr} is re-bound at {rebound[a.value.attr]} (e.g. by a length assignment in the callback), so the local is a detached list", f"{f.module.rel}:{use.line}")
+        else:
+            rep.ok(rid, key, {"reads": len(reads), "reentrant_sites": len(sites), "aliases": len(alias_assigns)})
